@@ -341,6 +341,7 @@ pub fn run(seed: u64, out: &str, args: &[String]) -> bool {
         let mut hang = None;
         let mut step = 0;
         let mut quiet_rounds = 0;
+        let mut shutdown_done = false;
         let shutdown_at: Option<u64> = if extended && rng.chance(35) { Some(length * (40 + rng.below(50)) / 100) } else { None };
         while hang.is_none() {
             let winding_down = step >= length;
@@ -374,7 +375,8 @@ pub fn run(seed: u64, out: &str, args: &[String]) -> bool {
                     next_value += 1;
                     let weight = if rng.chance(70) { 1 + rng.below(4) as i64 } else { rng.pick(&[1i64, max / 2, max - 1, max, max + 1]).max(1) };
                     let ttl = if rng.chance(40) { Some(rng.pick(&[1u128, 1_000_000_000, 2_000_000_000, 5_000_000_000])) } else { None };
-                    let shutdown_now = extended && shutdown_at == Some(step);
+                    let shutdown_now = extended && !shutdown_done && shutdown_at.map(|at| step >= at).unwrap_or(false);
+                    if shutdown_now { shutdown_done = true; }
                     let req = if shutdown_now { Req::Shutdown } else { match rng.below(if extended { 11 } else { 10 }) {
                         10 => Req::GetRef(key),
                         0 | 1 | 2 => Req::PutW(key, next_value, weight, ttl),
